@@ -41,9 +41,9 @@ func c15Kind(op, tr string) string {
 		return "select"
 	}
 	switch tr {
-	case "tcp":
+	case "tcp", "tcp-tls":
 		return "poll"
-	case "ws":
+	case "ws", "wss":
 		return "helper"
 	}
 	return "select"
@@ -193,6 +193,29 @@ func c15Run(c *c15Case) (obs c15Obs) {
 			_, err := cc.ProcessCommand(ctx, r)
 			return err
 		}))
+	case "ch.finish-server-backlog":
+		// the peer's notifications pile up because nobody consumes them (stream buffer 1): the server's
+		// receiver is parked on the full stream. Finishing the session has to get past it; whether it
+		// completes or gives up, it returns by the end of its context.
+		cc, sc, ok := established()
+		if !ok {
+			return
+		}
+		for j := 0; j < 6; j++ {
+			n := &lime.Notification{Event: lime.NotificationEventReceived}
+			n.ID = fmt.Sprintf("n%d", j)
+			sctx, scancel := context.WithTimeout(context.Background(), 200*time.Millisecond)
+			_ = cc.SendNotification(sctx, n)
+			scancel()
+		}
+		time.Sleep(50 * time.Millisecond)
+		done, err, lat, total := measure(func(ctx context.Context) error { return sc.FinishSession(ctx) })
+		if done && err == nil {
+			obs.Returned, obs.Err = true, "completed"
+			obs.TotalMs = int(total / time.Millisecond)
+			return
+		}
+		report(done, err, lat, total)
 	case "ch.finish-client":
 		cc, _, ok := established()
 		if !ok {
@@ -297,7 +320,7 @@ func c15Run(c *c15Case) (obs c15Obs) {
 
 func init() {
 	Register("c15", func(e *Env) error {
-		e.Rep.Rule = "every context-taking blocking operation (transport Send with a peer that does not read and full buffers, transport Receive with a silent peer, listener Accept with nobody connecting, channel SendMessage blocked, ProcessCommand unanswered, client FinishSession unanswered, client and server EstablishSession against a silent peer) x in-process / TCP / WebSocket x context with a deadline / cancelled, ending 60-400 ms into the call; measured: whether the call returns, with an error, and how long after the end of its context; compared with the bound of the statement (promptly at a deadline; within the 5 s I/O poll for a cancellation on TCP) and with the return time the timed model computes. All cases run concurrently. Non-trivial = every case; distinct by case."
+		e.Rep.Rule = "every context-taking blocking operation (transport Send with a peer that does not read and full buffers, transport Receive with a silent peer, listener Accept with nobody connecting, channel SendMessage blocked, ProcessCommand unanswered, client FinishSession unanswered, client and server EstablishSession against a silent peer, server FinishSession past a backlog of unconsumed notifications) x in-process / TCP / WebSocket (the transport-level waits also over TLS: tcp-tls, wss) x context with a deadline / cancelled, ending 60-400 ms into the call; measured: whether the call returns, with an error, and how long after the end of its context; compared with the bound of the statement (promptly at a deadline; within the 5 s I/O poll for a cancellation on TCP) and with the return time the timed model computes. All cases run concurrently. Non-trivial = every case; distinct by case."
 		var cases []*c15Case
 		if e.Replay != "" {
 			b, err := readReplayCase(e.Replay)
@@ -313,8 +336,12 @@ func init() {
 			cases = []*c15Case{wrap.Case, wrap.Case, wrap.Case}
 		} else {
 			ops := []string{"l.accept", "t.recv", "t.send-blocked", "ch.send-blocked", "ch.process", "ch.finish-client", "ch.establish-client", "ch.establish-server", "ch.finish-after-unclaimed"}
-			for _, tr := range []string{"inproc", "tcp", "ws"} {
+			ops = append(ops, "ch.finish-server-backlog")
+			for _, tr := range []string{"inproc", "tcp", "ws", "tcp-tls", "wss"} {
 				for _, op := range ops {
+					if (tr == "tcp-tls" || tr == "wss") && op != "t.recv" && op != "t.send-blocked" && op != "ch.send-blocked" {
+						continue // the TLS variants differ in what sits under the transport: the transport-level waits
+					}
 					for _, k := range []string{"deadline", "cancel", "cancel-with-distant-deadline"} {
 						reps := 1
 						if e.Thorough() {
